@@ -151,7 +151,7 @@ pub fn strategy() -> impl Strategy<Value = SessionCase> {
 }
 
 pub fn build_steps(c: &SessionCase, corp: &corpus::Corpus) -> Vec<Step> {
-    let mut steps = vec![];
+    let mut steps: Vec<Step> = vec![];
     let mut prev_game: Option<Game> = None;
     for (i, g) in c.games.iter().enumerate() {
         let mix = gen::StartMix { startpos: 3, corpus: 5, synth: 3, pattern: 5 };
@@ -165,13 +165,36 @@ pub fn build_steps(c: &SessionCase, corp: &corpus::Corpus) -> Vec<Step> {
             let Some((start, _label)) = gen::start_pos(&g.start, corp, mix) else { continue };
             Game::new(start)
         };
-        let choices: Vec<u16> = if continuation { g.choices.iter().take(1 + (c.ent[i][22] % 3) as usize).copied().collect() } else { g.choices.clone() };
-        for &ch in &choices {
+        // half of the continuations are "probe pairs": the previous go is made a complete
+        // depth-3/4 search, the game continues by two plies (the second one a check if there is
+        // one), and the new go gets a budget that completes no iteration - the answer then
+        // depends on what the previous search left behind for this very position
+        let probe_pair = continuation && c.ent[i][23] % 2 == 0 && !steps.is_empty();
+        let choices: Vec<u16> = if probe_pair {
+            g.choices.iter().take(2).copied().collect()
+        } else if continuation {
+            g.choices.iter().take(1 + (c.ent[i][22] % 3) as usize).copied().collect()
+        } else {
+            g.choices.clone()
+        };
+        for (k, &ch) in choices.iter().enumerate() {
             let legal = game.cur.legal_moves();
             if legal.is_empty() {
                 break;
             }
-            game.play(gen::choose_move(&game, &legal, g.weighted, ch));
+            let checks: Vec<o::Mv> = legal.iter().copied().filter(|m| game.cur.make(*m).in_check(!game.cur.wtm)).collect();
+            if probe_pair && k == 1 && !checks.is_empty() {
+                game.play(checks[pick16(ch, checks.len())]);
+            } else {
+                game.play(gen::choose_move(&game, &legal, g.weighted, ch));
+            }
+        }
+        if probe_pair {
+            if let Some(prev) = steps.last_mut() {
+                let d = 3 + (c.ent[i][22] % 2) as u64;
+                prev.go = format!("go depth {d}");
+                prev.time_bound_ms = None;
+            }
         }
         while game.cur.legal_moves().is_empty() && !game.moves.is_empty() {
             game.undo();
@@ -182,6 +205,23 @@ pub fn build_steps(c: &SessionCase, corp: &corpus::Corpus) -> Vec<Step> {
         }
         let wtm = game.cur.wtm;
         let mut spec = go_spec(&mut Entropy::new(&c.ent[i]), wtm);
+        if probe_pair {
+            spec = GoSpec::default();
+            match c.ent[i][19] % 5 {
+                0 => spec.nodes = Some(1),
+                1 => spec.movetime = Some(0),
+                2 => {
+                    spec.wtime = Some(10);
+                    spec.btime = Some(10);
+                }
+                3 => spec.nodes = Some(2),
+                _ => {
+                    spec.wtime = Some(1);
+                    spec.btime = Some(1);
+                    spec.winc = Some(0);
+                }
+            }
+        }
         // a time-bounded go must also end in time where the capture-only quiescence tree is
         // enormous: now and then the position is a capture-saturated construction
         let mut heavy = false;
@@ -224,7 +264,7 @@ pub fn build_steps(c: &SessionCase, corp: &corpus::Corpus) -> Vec<Step> {
             classes.push("idle-commands-before");
         }
         if continuation && !heavy {
-            classes.push("continues-previous-game");
+            classes.push(if probe_pair { "probe-pair(complete search, then cut-short go two plies later)" } else { "continues-previous-game" });
         }
         // a capture-saturated position is only ever searched under a time bound: never continue from it
         prev_game = if heavy { None } else { Some(game.clone()) };
